@@ -391,6 +391,8 @@ class Evaluator:
             return self.place_ref(fr, rv[2])
         if k == "cast":
             v = self.operand(fr, rv[2])
+            if rv[1] == "IntToFloat" and isinstance(v, int) and not isinstance(v, bool):
+                return float(v)
             if rv[1] in ("IntToInt", "IntToFloat", "FloatToFloat", "Transmute", "PtrToPtr", "Subtype") or rv[1].startswith("Coerce"):
                 if rv[1] == "IntToInt" and isinstance(v, int) and rv[3] in ("u8", "u16", "u32", "u64", "usize") and v < 0:
                     if not getattr(self, "wrap_casts", False):
@@ -406,7 +408,15 @@ class Evaluator:
                         v -= 1 << bits
                 return v
             if rv[1] == "FloatToInt" and isinstance(v, float):
+                if v != v:
+                    return 0
+                bits = {"u8": 8, "u16": 16, "u32": 32, "u64": 64, "usize": 64, "i8": 8, "i16": 16, "i32": 32, "i64": 64, "isize": 64}.get(rv[3])
+                if bits:                     # `as` saturates
+                    lo, hi = (0, (1 << bits) - 1) if rv[3].startswith("u") else (-(1 << (bits - 1)), (1 << (bits - 1)) - 1)
+                    return max(lo, min(hi, int(v))) if abs(v) != float("inf") else (hi if v > 0 else lo)
                 return int(v)
+            if rv[1] == "IntToFloat" and isinstance(v, int) and not isinstance(v, bool):
+                return float(v)
             return v
         if k == "bin":
             return self.binop(rv[1], self.operand(fr, rv[2]), self.operand(fr, rv[3]))
@@ -427,6 +437,8 @@ class Evaluator:
             raise Unsupported("unop %s on %r" % (rv[1], v))
         if k == "discr":
             v = self.read_place(fr, rv[1])
+            if isinstance(v, Enum) and v.adt == "core::cmp::Ordering":
+                return {"Less": -1, "Equal": 0, "Greater": 1}[v.name]
             if isinstance(v, Enum):
                 a = self.adt(v.adt) if "::" in str(v.adt) and not str(v.adt).startswith("core::") else None
                 try:
@@ -560,6 +572,17 @@ class Evaluator:
             if uns and r < 0:
                 return Enum("core::option::Option", 0, "None", [])
             return Enum("core::option::Option", 1, "Some", [r])
+        if sh0 in ("core::cmp::Ord::cmp", "core::cmp::PartialOrd::partial_cmp") and len(args) == 2:
+            a, b = self.deref_val(args[0]), self.deref_val(args[1])
+            if all(isinstance(q, (int, float)) and not isinstance(q, bool) for q in (a, b)):
+                o = Enum("core::cmp::Ordering", 0 if a < b else (1 if a == b else 2), "Less" if a < b else ("Equal" if a == b else "Greater"), [])
+                return o if sh0.endswith("::cmp") else Enum("core::option::Option", 1, "Some", [o])
+        if short in ("core::f32::<impl f32>::clamp", "core::f64::<impl f64>::clamp") and len(args) == 3 and all(isinstance(q, (int, float)) for q in args):
+            x = float(args[0])
+            return x if x != x else max(float(args[1]), min(float(args[2]), x))
+        if short in ("core::f32::<impl f32>::max", "core::f32::<impl f32>::min", "core::f64::<impl f64>::max", "core::f64::<impl f64>::min") and len(args) == 2 \
+                and all(isinstance(q, (int, float)) for q in args):
+            return max(args) if short.endswith("max") else min(args)
         if sh0 in ("core::cmp::Ord::clamp",) and len(args) == 3 and all(isinstance(q, int) and not isinstance(q, bool) for q in args):
             return max(args[1], min(args[2], args[0]))
         if short.startswith("core::option::Option::<") and args and isinstance(args[0], Enum) and short.split("::")[-1] in ("copied", "cloned"):
@@ -748,7 +771,7 @@ class Evaluator:
                     raise Unsupported("switch on %r in %s" % (v, fn.path))
                 tgt = t[3]
                 for val, x in t[2]:
-                    if int(val) == v:
+                    if int(val) == v or (v < 0 and int(val) in (v + 256, v + (1 << 16), v + (1 << 32), v + (1 << 64), v + (1 << 128))):
                         tgt = x
                 bb = tgt
             elif k == "call":
